@@ -1,8 +1,12 @@
 pub mod automaton;
 pub mod build;
+pub mod cache;
 pub mod classes;
 pub mod common;
+pub mod dotexport;
 pub mod history;
+pub mod isolation;
+pub mod large;
 pub mod modes;
 pub mod scan;
 pub mod serde;
@@ -22,8 +26,12 @@ pub fn all() -> Vec<Box<dyn Check>> {
         Box::new(history::C09),
         Box::new(history::C10),
         Box::new(history::C11),
+        Box::new(isolation::C12),
+        Box::new(cache::C13),
         Box::new(build::C15),
         Box::new(serde::C16),
+        Box::new(large::C17),
+        Box::new(dotexport::C18),
     ]
 }
 
